@@ -12,7 +12,8 @@ RULE = ("(1) every documented unit: its scale to SI base units, observed as `1 <
         "intervals where no exact value exists); (2) the full cross product (40 prefix spellings + none) x 239 names: each typeable word w "
         "is sent as `1 w`, `1w` and to str::parse::<Compound>; if accepted its (SI value, dimension) must be one of the readings of w as a "
         "sequence of [prefix]name pieces, and the three entry points must agree; every typeable documented name must be accepted on its "
-        "own with its own meaning; (3) concatenations of 2-3 unit words; (4) random unit expressions: juxtaposition, `*` and blanks "
+        "own with its own meaning; (3) concatenations of 2-3 unit words, and every [prefix]name word (quick: up to five letters) x every name as ONE word, swept in-process - "
+        "those that read differently from the product of the two pieces are judged by the segmentation oracle; (4) random unit expressions: juxtaposition, `*` and blanks "
         "multiply, `/` inverts everything after it, `^n` binds to the unit it follows. Rejections are allowed except for bare documented "
         "names. non-trivial = distinct accepted word with a prefix or more than one reading, or accepted expression with >=2 words")
 
@@ -233,6 +234,39 @@ def shard(p):
         d.close()
     return acc
 
+def concat_shard(p):
+    """Judges the one-word concatenations that read differently from the product of their two pieces (reported by the in-process
+    sweep): the reading must be SOME product of [prefix]name readings of the word's pieces."""
+    acc = Acc()
+    d = Driver(p["bin"])
+    try:
+        V = G.Vocab(d, include_offset=True)
+    finally:
+        d.close()
+    for item in p["items"]:
+        acc.evaluations += 1
+        w = item["word"]
+        case = {"word": w, "pieces": [item.get("a"), item.get("b")], "build": p["kind"]}
+        if "panic" in item:
+            acc.violate("c05:panic:concat", "word %r panicked: %s" % (w, item["panic"]), dict(case, observed=item["panic"]))
+            continue
+        parts = [list(x) for x in item["u"]]
+        try:
+            sv, dims = V.normalise(1, [tuple(x) for x in parts], allow_offset_as_interval=True)
+        except Exception as ex:
+            acc.inconc("cannot normalise %r: %r" % (w, ex))
+            continue
+        case["observed_parts"] = parts
+        acc.nontriv(w)
+        if not R.reading_matches(w, sv, dims):
+            fb = R.fallback_node(w)
+            bad = [k for k, _, _ in parts if k in p["bad_keys"]]
+            if bad:
+                acc.violate("c05:unit-scale:%s" % p["bad_keys"][bad[0]], "word %r inherits a non-standard unit scale" % w, case)
+            else:
+                acc.violate("c05:lexer-fallback" if fb else "c05:concat-reading:" + w, "%r is read as %s = %s [%s], which is no product of [prefix]name readings of its pieces" % (w, parts, sv, G.si.fmt_dims(dims)), case)
+    return acc
+
 def all_words():
     names = sorted(R.NAME2UNITS)
     prefixes = [""] + sorted(R.PREFIXES)
@@ -258,6 +292,24 @@ def run(tier, seed):
     nc, ne = (3000, 6000) if tier == "quick" else (100000, 200000)
     payloads = [{"seed": seed, "shard": i, "words": words[i::NCPU], "n_concat": nc // NCPU, "n_expr": ne // NCPU, "bin": bins["dbg"], "kind": "dbg"} for i in range(NCPU)]
     acc = run_shards(shard, payloads)
+    # (5) every [prefix]name word x every name written as ONE word (2.2 million words, swept in-process): agreeing with `a*b` is
+    # fine, being refused is fine; the ~1 % that read differently are judged by the segmentation oracle
+    names = [n for n in sorted(R.NAME2UNITS) if R.typeable(n)]
+    with Driver(bins["rel"]) as d:
+        rep = d.call({"op": "c05_concat", "a": words if tier == "thorough" else [w for w in words if len(w) <= 5], "b": names, "threads": NCPU}, timeout=3600)
+    acc.counters["concat_sweep_words"] = rep["pairs"]
+    acc.counters["concat_sweep_accepted"] = rep["accepted"]
+    acc.counters["concat_sweep_same_as_product"] = rep["agree_with_product"]
+    acc.counters["concat_sweep_judged_by_oracle"] = len(rep["differing"])
+    acc.evaluations += rep["agree_with_product"]
+    bad = {k.split(":")[2].split("=")[0]: k.split(":", 2)[2] for k in []}
+    bad_keys = {}
+    for u in R.U.values():
+        for v in acc.violations:
+            if v["sig"].startswith("c05:unit-scale:%s=" % u["name"]):
+                bad_keys[u["key"]] = v["sig"].split(":", 2)[2]
+    items = rep["differing"]
+    acc.merge(run_shards(concat_shard, [{"items": items[i::NCPU], "bin": bins["dbg"], "kind": "rel", "bad_keys": bad_keys} for i in range(NCPU)]))
     return finish(PID, tier, seed, "exploration", acc, RULE, t0,
                   assumptions=["the reference table (monitors/core/units_ref.py) is right: every entry cites its standard, multi-reading sets and intervals where standards differ",
                                "any prefix may combine with any unit name (generous reading set)"],
